@@ -58,8 +58,18 @@ type c14Case struct {
 	Text   string       `json:"text,omitempty"` // optional: the same group as dae configuration text
 	// optional: build the pool with the production NewDialerSetFromLinks from subscription tag -> links
 	// (Pool is ignored then)
+	// optional: several groups declared in ONE configuration text (Text); Lines/Annos/Policy are ignored,
+	// every group is decoded by config.New and evaluated from what was decoded
+	Groups    []c14GroupDef `json:"groups,omitempty"`
 	FromLinks bool        `json:"from_links,omitempty"`
 	Tagged    []c14Tagged `json:"tagged,omitempty"`
+}
+
+type c14GroupDef struct {
+	Name   string       `json:"name"`
+	Lines  [][]c14Func  `json:"lines"`
+	Annos  [][]c14Param `json:"annos"`
+	Policy c14Policy    `json:"policy"`
 }
 
 type c14Tagged struct {
@@ -90,6 +100,8 @@ type c14Result struct {
 	Text    string            `json:"text,omitempty"` // "", "same", "differs: ...", "error: ..."
 	// from_links: the pool NewDialerSetFromLinks built, (tag, name) in s.dialers order, and the link oracle
 	// (link -> name the link parses to, null when dialer.NewFromLink rejects it)
+	Multi    []c14Result        `json:"multi,omitempty"`   // per decoded group, in conf.Group order
+	Decoded  *c14GroupDef       `json:"decoded,omitempty"` // (inside Multi) the group as config.New decoded it
 	ImplPool [][2]string        `json:"impl_pool,omitempty"`
 	Links    map[string]*string `json:"links,omitempty"`
 	Panic   string            `json:"panic,omitempty"`
@@ -236,6 +248,11 @@ func c14Run(c *c14Case) (res c14Result) {
 	}
 	defer func() { _ = set.Close() }()
 
+	if len(c.Groups) > 0 {
+		c14Multi(option, set, index, subjects, c, &res)
+		return res
+	}
+
 	var filters [][]*config_parser.Function
 	for _, l := range c.Lines {
 		filters = append(filters, c14Funcs(l))
@@ -245,7 +262,33 @@ func c14Run(c *c14Case) (res c14Result) {
 		annos = append(annos, c14Params(a))
 	}
 
-	// oracle data: regexp2 and time.ParseDuration, asked directly
+	c14Oracles(&res, filters, annos, subjects)
+
+	var pol config.FunctionListOrString
+	switch c.Policy.Type {
+	case "string":
+		pol = c14Unhex(c.Policy.S)
+	case "func":
+		pol = c14Funcs(c.Policy.Fs)[0]
+	case "funcs":
+		fs := c14Funcs(c.Policy.Fs)
+		if fs == nil {
+			fs = []*config_parser.Function{}
+		}
+		pol = fs
+	default:
+		pol = 42
+	}
+	c14Eval(option, set, index, &config.Group{Name: "g", Filter: filters, FilterAnnotation: annos, Policy: pol}, &res)
+
+	if c.Text != "" {
+		res.Text = c14TextPath(option, set, index, c.Text, filters, annos, pol, &res)
+	}
+	return res
+}
+
+// oracle data: regexp2 and time.ParseDuration, asked directly
+func c14Oracles(res *c14Result, filters [][]*config_parser.Function, annos [][]*config_parser.Param, subjects []string) {
 	for _, l := range filters {
 		for _, f := range l {
 			for _, p := range f.Params {
@@ -280,28 +323,6 @@ func c14Run(c *c14Case) (res c14Result) {
 			}
 		}
 	}
-
-	var pol config.FunctionListOrString
-	switch c.Policy.Type {
-	case "string":
-		pol = c14Unhex(c.Policy.S)
-	case "func":
-		pol = c14Funcs(c.Policy.Fs)[0]
-	case "funcs":
-		fs := c14Funcs(c.Policy.Fs)
-		if fs == nil {
-			fs = []*config_parser.Function{}
-		}
-		pol = fs
-	default:
-		pol = 42
-	}
-	c14Eval(option, set, index, &config.Group{Name: "g", Filter: filters, FilterAnnotation: annos, Policy: pol}, &res)
-
-	if c.Text != "" {
-		res.Text = c14TextPath(option, set, index, c.Text, filters, annos, pol, &res)
-	}
-	return res
 }
 
 // c14Eval runs the two production entry points exactly as control_plane.go does for one group.
@@ -456,4 +477,75 @@ func TestVerifC14(t *testing.T) {
 		}
 		return c14Run(&c)
 	})
+}
+
+func c14WireParams(ps []*config_parser.Param) []c14Param {
+	out := []c14Param{}
+	for _, p := range ps {
+		out = append(out, c14Param{K: hex.EncodeToString([]byte(p.Key)), V: hex.EncodeToString([]byte(p.Val))})
+	}
+	return out
+}
+
+func c14WireFuncs(fs []*config_parser.Function) []c14Func {
+	out := []c14Func{}
+	for _, f := range fs {
+		out = append(out, c14Func{Name: hex.EncodeToString([]byte(f.Name)), Not: f.Not, Params: c14WireParams(f.Params)})
+	}
+	return out
+}
+
+// c14Multi: one configuration text declaring several groups -> config_parser.Parse -> config.New; every
+// decoded group is reported as decoded and evaluated (FilterAndAnnotate, policy, fixed selection) from
+// the decoded struct, exactly what control_plane.go does per group.
+func c14Multi(option *dialer.GlobalOption, set *DialerSet, index map[*dialer.Dialer]int, subjects []string, c *c14Case, res *c14Result) {
+	for _, g := range c.Groups {
+		var filters [][]*config_parser.Function
+		for _, l := range g.Lines {
+			filters = append(filters, c14Funcs(l))
+		}
+		var annos [][]*config_parser.Param
+		for _, a := range g.Annos {
+			annos = append(annos, c14Params(a))
+		}
+		c14Oracles(res, filters, annos, subjects)
+	}
+	sections, err := config_parser.Parse(c.Text)
+	if err != nil {
+		res.Text = "error: parse: " + err.Error()
+		return
+	}
+	conf, err := config.New(sections)
+	if err != nil {
+		res.Text = "error: config.New: " + err.Error()
+		return
+	}
+	res.Text = "parsed"
+	res.Multi = []c14Result{}
+	for i := range conf.Group {
+		g := conf.Group[i]
+		var sub c14Result
+		dec := &c14GroupDef{Name: hex.EncodeToString([]byte(g.Name)), Lines: [][]c14Func{}, Annos: [][]c14Param{}}
+		for _, l := range g.Filter {
+			dec.Lines = append(dec.Lines, c14WireFuncs(l))
+		}
+		for _, a := range g.FilterAnnotation {
+			dec.Annos = append(dec.Annos, c14WireParams(a))
+		}
+		switch p := g.Policy.(type) {
+		case string:
+			dec.Policy = c14Policy{Type: "string", S: hex.EncodeToString([]byte(p))}
+		case *config_parser.Function:
+			dec.Policy = c14Policy{Type: "func", Fs: c14WireFuncs([]*config_parser.Function{p})}
+		case []*config_parser.Function:
+			dec.Policy = c14Policy{Type: "funcs", Fs: c14WireFuncs(p)}
+		default:
+			dec.Policy = c14Policy{Type: "other"}
+		}
+		sub.Decoded = dec
+		// regex / duration oracle for whatever was decoded (equal to the declared ones unless decoding is wrong)
+		c14Oracles(res, g.Filter, g.FilterAnnotation, subjects)
+		c14Eval(option, set, index, &g, &sub)
+		res.Multi = append(res.Multi, sub)
+	}
 }
